@@ -9,6 +9,7 @@ extern crate libz_sys;
 mod api;
 mod edef;
 mod einf;
+mod eprog;
 mod gen;
 mod guard;
 mod json;
